@@ -180,6 +180,19 @@ def worker(item: Any, res: runner.Result) -> None:  # pylint: disable=too-many-l
         for name, sub in fn.subroutines.items():
             if teal.subroutines.get(name) is not sub:
                 res.violation("C12.subroutine-not-shared", item, path=list(pid), sub=name)
+        # "and no others": exactly the subroutines some retained block can call (transitively)
+        exp_subs: set = set()
+        todo = [b for b in real.values()]
+        while todo:
+            blk = todo.pop()
+            if blk.is_callsub_block and blk.called_subroutine is not None and blk.called_subroutine.name not in exp_subs:
+                exp_subs.add(blk.called_subroutine.name)
+                todo.extend(blk.called_subroutine.blocks)
+        if set(fn.subroutines) != exp_subs:
+            res.violation("C12.function-subroutines", item, path=list(pid), expected=sorted(exp_subs), actual=sorted(fn.subroutines))
+        sub_ids = set(id(b) for s in fn.subroutines.values() for b in s.blocks) | set(id(b) for b in fn.main.blocks)
+        if any(id(b) not in sub_ids for b in fn.blocks):
+            res.violation("C12.function-blocks-outside-function", item, path=list(pid))
         in_fn = set(id(b) for b in fn.blocks)
         for i, b in fmain.items():
             if id(b) not in in_fn:
